@@ -12,7 +12,6 @@ Record runrec := RunRec {
   rr_tid : nat; rr_opts : opts; rr_faults : list nat; rr_cancel : option nat;
   rr_t0 : Z; rr_t1 : Z; rr_res : N
 }.
-Record tev := TEv { te_tid : nat; te_ev : event }.
 Record case := Case {
   c_lfe : bool; c_s0 : store; c_runs : list runrec; c_trace : list tev; c_s1 : store
 }.
@@ -41,9 +40,6 @@ Fixpoint list_eqb {A} (f : A -> A -> bool) (a b : list A) : bool :=
   | x :: a', y :: b' => f x y && list_eqb f a' b'
   | _, _ => false
   end.
-
-Definition proj (t : nat) (tr : list tev) : list event :=
-  map te_ev (filter (fun x => Nat.eqb (te_tid x) t) tr).
 
 (** *** the model on a case *)
 Definition env_of (c : case) (r : runrec) : env := Env (rr_faults r) (rr_cancel r) (c_lfe c).
@@ -89,32 +85,6 @@ Definition model_ok (c : case) : bool :=
   end.
 
 (** *** the specification on the implementation's observation *)
-
-(** mutual exclusion and bracketing on the merged trace: a cleaner issues storage calls only
-    while it holds the lock; the lock is free at the end *)
-Fixpoint under_lock (holder : option nat) (tr : list tev) : bool :=
-  match tr with
-  | [] => match holder with None => true | Some _ => false end
-  | x :: r =>
-      let t := te_tid x in
-      match ev_kind (te_ev x) with
-      | KLock =>
-          seqb (ev_key (te_ev x)) spec_lock &&
-          if ev_ok (te_ev x)
-          then match holder with None => under_lock (Some t) r | Some _ => false end
-          else negb (opt_eqb Nat.eqb holder (Some t)) && under_lock holder r
-      | KUnlock =>
-          seqb (ev_key (te_ev x)) spec_lock &&
-          opt_eqb Nat.eqb holder (Some t) && under_lock None r
-      | _ => opt_eqb Nat.eqb holder (Some t) && under_lock holder r
-      end
-  end.
-
-Definition has_kind (p : opk -> bool) (l : list event) : bool := existsb (fun ev => p (ev_kind ev)) l.
-Definition stored_ok (l : list event) : bool :=
-  existsb (fun ev => match ev_kind ev with KStore => seqb (ev_key ev) spec_last_clean && ev_ok ev | _ => false end) l.
-Definition does_work (k : opk) : bool :=
-  match k with KList | KStat | KDelete | KStore => true | _ => false end.
 
 (** every difference between the storage before and after is allowed
     (written with [if] so that the justification is only computed for keys that changed) *)
